@@ -636,7 +636,7 @@ def _bounds_with_modes(hmod, tier, cfgs):
     return b
 
 
-DEFAULT_PATH_BUDGET = {"quick": None, "thorough": 8000}
+DEFAULT_PATH_BUDGET = {"quick": 25000, "thorough": 8000}  # quick: a safety net far above every configuration of the unchanged tree
 
 COMMON_ASSUMPTIONS = [
     "arithmetic on symbolic values is exact (reals); every concrete double enters terms as its exact rational value; IEEE rounding of symbolic arithmetic is not modelled (near-ties below rounding error are outside the claim)",
